@@ -166,6 +166,11 @@ def script(spec):
         L.append('init 0 %d 0' % sid)
         for r in spec['regs']:
             L.append('set_validate_func 0 %s 1' % hx(r))
+        # registrations through paths that do not resolve register nothing (and must not disturb anything)
+        scal = next((d.name for d in decls if d.typ in ('int', 'str')), 'nosuch2')
+        for bad in ('nosuch', 'nosuch|x', scal + '|x', '|', '', scal + '|', 'nosuch|' + scal):
+            L.append('set_validate_func 0 %s 1' % hx(bad))
+            L.append('set_validate_func2 0 %s 1' % hx(bad))
         L.append('failat %d' % k)
         L.append('parse_buf 0 %s' % hx(text))
         L.append('failat 0')
